@@ -1125,6 +1125,10 @@ struct Sim<'a> {
     calls: u64,
     old_reads: Vec<Message>,
     read_dups_left: u32, // bounded: a re-delivered request may be forwarded and re-delivered again
+    // directed faults from their own PRNG stream: one-way holds of a link (optionally of one message type only),
+    // the lagging-acknowledgements scenario
+    rng2: Rng,
+    held: Vec<(u64, u64, Option<MessageType>)>,
 }
 
 fn role_name(s: StateRole) -> &'static str {
@@ -1721,8 +1725,12 @@ impl<'a> Sim<'a> {
                 self.call(i, Op::Step(m))
             }
             37..=48 => {
-                let c = format!("r{}", self.next_payload).into_bytes();
+                let mut c = format!("r{}", self.next_payload).into_bytes();
                 self.next_payload += 1;
+                if self.rng2.chance(6) {
+                    // the empty context: the one ordinary heartbeats carry
+                    c.clear();
+                }
                 self.call(i, Op::ReadIndex(c))
             }
             49..=54 => {
@@ -1836,6 +1844,156 @@ impl<'a> Sim<'a> {
         self.start(i);
     }
 
+    fn is_held(&self, m: &Message) -> bool {
+        self.held.iter().any(|(f, t, ty)| *f == m.from && *t == m.to && ty.map_or(true, |x| x == m.get_msg_type()))
+    }
+
+    fn deliver_all_unheld(&mut self) {
+        let msgs: Vec<Message> = self.net.drain(..).collect();
+        let mut kept = vec![];
+        for m in msgs {
+            if self.is_held(&m) {
+                kept.push(m);
+                continue;
+            }
+            self.net.push(m);
+            let k = self.net.len() - 1;
+            self.deliver(k, false);
+        }
+        self.net.extend(kept);
+    }
+
+    fn extra_faults(&mut self) {
+        if self.net.len() > 3000 {
+            self.net.drain(..1000);
+        }
+        let x = self.rng2.below(1000);
+        if x < 6 {
+            if self.held.is_empty() {
+                let n = self.nodes.len() as u64;
+                if n < 2 {
+                    return;
+                }
+                let l = self.leader().map(|k| self.nodes[k].id);
+                let a = if let (Some(l), true) = (l, self.rng2.chance(75)) { l } else { 1 + self.rng2.below(n) };
+                let mut b = 1 + self.rng2.below(n);
+                if b == a {
+                    b = 1 + (b % n);
+                }
+                let (f, t) = if self.rng2.chance(60) { (b, a) } else { (a, b) };
+                let ty = match self.rng2.below(6) {
+                    0 => Some(MessageType::MsgAppendResponse),
+                    1 => Some(MessageType::MsgHeartbeatResponse),
+                    2 => Some(MessageType::MsgAppend),
+                    3 => Some(MessageType::MsgSnapshot),
+                    _ => None,
+                };
+                self.held.push((f, t, ty));
+                Coverage::bump(&mut self.cov.events, "hold".into());
+            } else {
+                self.held.clear();
+                Coverage::bump(&mut self.cov.events, "release".into());
+            }
+        } else if x < 9 {
+            self.lagging_acks();
+        }
+    }
+
+    /// scenario: a follower keeps receiving entries while its acknowledgements are held back; the others commit
+    /// without it; the leader applies, compacts past what it knows the follower to hold and is told the follower is
+    /// unreachable; heartbeats go through (the leader falls back to a snapshot, which stays in flight); then the old
+    /// acknowledgements arrive one by one, then everything else
+    fn lagging_acks(&mut self) {
+        let Some(l) = self.leader() else { return };
+        let lid = self.nodes[l].id;
+        let peers: Vec<u64> = self.nodes[l].st.as_ref().unwrap().rn.raft.prs().iter().map(|(id, _)| *id).filter(|id| *id != lid).collect();
+        if peers.is_empty() {
+            return;
+        }
+        let f = peers[self.rng2.below(peers.len() as u64) as usize];
+        Coverage::bump(&mut self.cov.events, "scenario_lagging_acks".into());
+        let saved = std::mem::take(&mut self.held);
+        self.held.push((f, lid, Some(MessageType::MsgAppendResponse)));
+        let n = self.nodes.len();
+        let rounds = 3 + self.rng2.below(5);
+        for r in 0..rounds {
+            if self.nodes[l].st.is_none() {
+                break;
+            }
+            let d = self.payload();
+            if self.call(l, Op::Propose(vec![], d)) {
+                self.housekeeping(l, true);
+            }
+            for _ in 0..3 {
+                for k in 0..n {
+                    self.housekeeping(k, true);
+                }
+                self.deliver_all_unheld();
+            }
+            if r + 2 == rounds {
+                self.held.push((lid, f, Some(MessageType::MsgAppend)));
+            }
+        }
+        if self.nodes[l].st.is_none() {
+            self.held = saved;
+            return;
+        }
+        {
+            let st = self.nodes[l].st.as_ref().unwrap();
+            let (fi, li) = (st.store.first_index().unwrap(), st.store.last_index().unwrap());
+            let a = st.rn.raft.raft_log.applied.min(li).min(st.store.rl().hard_state().commit);
+            if a > fi {
+                let k = if self.rng2.chance(60) { a } else { fi + 1 + self.rng2.below(a - fi) };
+                self.call(l, Op::Compact(k));
+            }
+        }
+        if self.rng2.chance(80) && self.nodes[l].st.is_some() {
+            self.call(l, Op::ReportUnreachable(f));
+        }
+        self.net.retain(|m| !(m.from == lid && m.to == f && m.get_msg_type() == MessageType::MsgAppend));
+        self.held.retain(|h| h.2 != Some(MessageType::MsgAppend));
+        self.held.push((lid, f, Some(MessageType::MsgSnapshot)));
+        for _ in 0..2 {
+            if self.nodes[l].st.is_some() && self.call(l, Op::Ping) {
+                self.housekeeping(l, true);
+            }
+            for _ in 0..2 {
+                for k in 0..n {
+                    self.housekeeping(k, true);
+                }
+                self.deliver_all_unheld();
+            }
+        }
+        self.held.retain(|h| h.2 != Some(MessageType::MsgAppendResponse));
+        let mut late = vec![];
+        let mut k = 0;
+        while k < self.net.len() {
+            if self.net[k].from == f && self.net[k].to == lid && self.net[k].get_msg_type() == MessageType::MsgAppendResponse {
+                late.push(self.net.remove(k));
+            } else {
+                k += 1;
+            }
+        }
+        for m in late {
+            self.net.push(m);
+            let k = self.net.len() - 1;
+            self.deliver(k, false);
+        }
+        if self.nodes[l].st.is_some() {
+            let d = self.payload();
+            if self.call(l, Op::Propose(vec![], d)) {
+                self.housekeeping(l, true);
+            }
+        }
+        for _ in 0..2 {
+            for k in 0..n {
+                self.housekeeping(k, true);
+            }
+            self.deliver_all_unheld();
+        }
+        self.held = saved;
+    }
+
     fn burst(&mut self) {
         let n = self.nodes.len();
         let rounds = 4 + self.rng.below(20);
@@ -1843,12 +2001,7 @@ impl<'a> Sim<'a> {
             for k in 0..n {
                 self.housekeeping(k, true);
             }
-            let msgs: Vec<Message> = self.net.drain(..).collect();
-            for m in msgs {
-                self.net.push(m);
-                let k = self.net.len() - 1;
-                self.deliver(k, false);
-            }
+            self.deliver_all_unheld();
             if self.rng.chance(50) {
                 for k in 0..n {
                     if self.call(k, Op::Tick) {
@@ -1874,6 +2027,7 @@ impl<'a> Sim<'a> {
             if self.nodes.iter().all(|x| x.st.is_none() && x.restarts > 3) {
                 break;
             }
+            self.extra_faults();
             let i = self.rng.below(n as u64) as usize;
             let op = self.rng.below(1000);
             match op {
@@ -1887,7 +2041,11 @@ impl<'a> Sim<'a> {
                     if !self.net.is_empty() {
                         let k = self.rng.below(self.net.len() as u64) as usize;
                         let dup = self.rng.chance(8);
-                        self.deliver(k, dup);
+                        if self.is_held(&self.net[k]) {
+                            Coverage::bump(&mut self.cov.events, "held_back".into());
+                        } else {
+                            self.deliver(k, dup);
+                        }
                     }
                 }
                 620..=649 => {
@@ -2063,7 +2221,7 @@ fn cluster(seed: u64, malformed: bool, cov: &mut Coverage) -> Sim<'_> {
         let store = build_storage(&hs, &cs, snap, mine);
         nodes.push(SimNode { id, st: None, cfg, store, snap, lines: Arc::new(Mutex::new(vec![])), unreported: None, restarts: 0 });
     }
-    Sim { nodes, net: vec![], rng, cov, isolated: vec![false; total as usize], next_payload: 1, malformed, et, calls: 0, old_reads: vec![], read_dups_left: 150 }
+    Sim { nodes, net: vec![], rng, cov, isolated: vec![false; total as usize], next_payload: 1, malformed, et, calls: 0, old_reads: vec![], read_dups_left: 150, rng2: Rng::new(seed ^ 0x5EED_FA17), held: vec![] }
 }
 
 /// `rn new` lines with damaged configurations / storages: `Config::validate`, the restore of the
@@ -2170,6 +2328,28 @@ fn hup_stream(seed: u64, n: u64, cov: &mut Coverage, out: &mut dyn Write) -> u64
         if rng.chance(15) {
             voters.retain(|v| *v != id);
         }
+        // configurations in which the node's own vote decides alone or almost: single voter, the joint
+        // configuration {id} && {id}, {id} && {id, x}, two voters
+        let shape = rng.below(10);
+        match shape {
+            0 => voters = vec![id],
+            1 => {
+                voters = vec![id];
+                cs.set_voters_outgoing(vec![id]);
+            }
+            2 => {
+                voters = vec![id];
+                cs.set_voters_outgoing(vec![id, 1 + id % 3]);
+            }
+            3 => voters = vec![id, 1 + id % 3],
+            4 => {
+                cs.set_voters_outgoing(vec![id]);
+            }
+            _ => {}
+        }
+        if !cs.get_voters_outgoing().is_empty() && rng.chance(50) {
+            cs.set_auto_leave(true);
+        }
         cs.set_voters(voters);
         if rng.chance(20) {
             cs.set_learners(vec![4]);
@@ -2272,6 +2452,36 @@ fn hup_stream(seed: u64, n: u64, cov: &mut Coverage, out: &mut dyn Write) -> u64
             }
         }
         ops.push(Op::Campaign);
+        if rng.chance(45) {
+            // template: the node leads (or tries to), appends without persisting, is deposed by a vote request of a
+            // later term (from a member or from a node that is not a member any more), and its election timer fires
+            // while its tail is still unpersisted — or after it has been persisted
+            let persist_first = rng.chance(30);
+            if rng.chance(60) {
+                ops.push(Op::Propose(vec![], vec![b'q']));
+            }
+            if persist_first {
+                ops.push(Op::Stabilize);
+            }
+            let mut m = Message::default();
+            m.set_msg_type(if rng.chance(70) { MessageType::MsgRequestVote } else { MessageType::MsgRequestPreVote });
+            m.from = [2u64, 3, 4, 9][rng.below(4) as usize];
+            if m.from == id {
+                m.from = 9;
+            }
+            m.to = id;
+            m.term = 3 + rng.below(3);
+            m.index = if rng.chance(50) { 100 } else { 0 };
+            m.log_term = if m.index > 0 { 2 } else { 0 };
+            ops.push(Op::Step(m));
+            if rng.chance(30) {
+                ops.push(Op::Stabilize);
+            }
+            for _ in 0..(2 * et + 2) {
+                ops.push(Op::Tick);
+            }
+            ops.push(Op::Campaign);
+        }
         for op in ops {
             let a = op.args();
             let (tok, obs, alive) = st.exec(&op, Some(pick), false);
